@@ -33,7 +33,13 @@ Oracle clauses (reference automaton: mc/x_c12_ref.py, written from the ASGI spec
     ctl-on-wire           CR, LF or NUL inside a header name/value the client decodes (h1: parsed
                           and raw head bytes; h2: decoded header blocks, inbound validation off)
     Wire clauses are evaluated after every operation and reported for the operation that
-    introduced them.
+    introduced them; only violations caused by the LAST operation of a history are reported (the
+    prefix was judged when it was the history), one witness per clause+key and scenario.
+    Violation keys: <carrier>:<operation>:<reference state>[:<exception>] for the send clauses,
+    <carrier>:<what the client saw>:after-<operation> for the wire clauses.
+    Messages whose validity the ASGI text leaves open are judged None by the reference (nothing
+    demanded about raising; the automaton follows the implementation, or goes to "limbo" where only
+    state-independent rejections remain) - see mc/x_c12_ref.py.
 
 Why equal canon implies equal futures
     canon = digest of (reference-automaton state; hypercorn's own state reachable from the
@@ -86,7 +92,7 @@ ASSUMPTIONS = [
 ]
 BOUNDS_DOC = {"quick": "history depth 6 (h1) / 4 (h2, h2te) / 5 (ws/h1, ws/h2), full alphabet",
               "thorough": "history depth 8 (h1) / 6 (h2, h2te) / 7 (ws/h1, ws/h2), full alphabet"}
-BUDGET = {"quick": 150, "thorough": 1500}
+BUDGET = {"quick": 100, "thorough": 1200}
 
 # ---------------------------------------------------------------------------------------------
 # alphabets
@@ -542,12 +548,17 @@ def explore_item_custom(params: Any, tier: str, deadline: float) -> dict:
     carrier, first = params
     depth = DEPTH[tier][carrier]
 
+    reported: set = set()
+
     def run(history: List[str]) -> Tuple[str, List[dict], List[str]]:
         canon, viol, enabled, _ = run_history(carrier, history)
-        return canon, viol, enabled
+        # one witness (the shortest: breadth-first order) per clause+key and scenario
+        fresh = [v for v in viol if (v["clause"], v["key"]) not in reported]
+        reported.update((v["clause"], v["key"]) for v in fresh)
+        return canon, fresh, enabled
 
-    c0, _, _ = run([])
-    c1, _, _ = run([first])
+    c0 = run_history(carrier, [])[0]
+    c1 = run_history(carrier, [first])[0]
     # A first operation that leaves the initial state unchanged has the futures of the initial
     # state, which the other scenarios of this carrier explore (one level deeper, even).
     sub_depth = 0 if c1 == c0 else depth - 1
@@ -556,17 +567,16 @@ def explore_item_custom(params: Any, tier: str, deadline: float) -> dict:
     # determinism: the root and every violating history are executed again and compared
     checks = [[first]] + [v["history"] for v in res["violations"][:20]]
     for h in checks:
-        a = run(list(h))
-        b = run(list(h))
+        a = run_history(carrier, list(h))
+        b = run_history(carrier, list(h))
         res["replay_checks"] += 1
         if a[0] != b[0] or [(x["clause"], x["key"]) for x in a[1]] != [(x["clause"], x["key"]) for x in b[1]]:
             res["replay_divergences"] += 1
             res["divergent"].append({"params": list(params), "history": list(h)})
     for v in res["violations"]:
         v["params"] = params
-    res["depth_completed"] = res.get("depth_completed", 0) + 1
-    if sub_depth == 0:
-        res["depth_completed"] = depth  # nothing below to explore: complete by construction
+    # an emptied frontier means every longer history runs through a state already expanded
+    res["depth_completed"] = res.get("depth_completed", 0) + 1 if res["capped"] else depth
     if not res["samples"]:
         res["samples"].append({"carrier": carrier, "history": [first]})
     return res
